@@ -23,7 +23,7 @@ RULE = ("Seeded straight-line programs (15-40 steps) over a growing pool of FmtS
         "distinct = distinct (operation, operand snapshots); non-trivial = an operand has a "
         "character.")
 FLOOR = 1000
-SHARDS = {"thorough": 16}
+SHARDS = {"quick": 4, "thorough": 16}
 ASSUMPTIONS = ["the icontract invariant names the memo slots _unicode/_len/_s/_width; if a refactoring "
                "removes them it reports memo_slots_seen=0 and only the behavioural copy comparison remains"]
 
